@@ -483,6 +483,10 @@ func (ctx *checkCtx) classifyReplay(o *OblResult, rc ReplayCase, out ReplayOutco
 		switch o.Kind {
 		case "assert":
 			reproduced = contains(out.AssertFails, o.Label)
+			if strings.HasPrefix(o.Label, "AppendFloat reached") && len(out.AssertFails) > 0 {
+				// engine-side obligation (no native counterpart): the same input must make a harness assertion fail natively
+				reproduced = true
+			}
 		case "panic":
 			reproduced = out.Panic != ""
 		case "frame":
